@@ -27,3 +27,4 @@ func vKnown(key string)
 func vRunMain(argv []string, file string) (stdout string, stderr string, exit int)
 func vReplayDraws(from int)
 func vDrawN(i int) uint32
+func vCoinScript(mode, free int)
